@@ -28,10 +28,11 @@ type histEv struct {
 
 // ListAct scripts the n-th List call.
 type ListAct struct {
-	Delay time.Duration // latency before the snapshot is returned
-	Fail  string        // "", "error", "nil", "notlist", "nonobject", "ctxerr"
-	Gate  chan struct{} // if non-nil the call returns only after it is closed (or ctx is done)
-	Late  bool          // take the snapshot at call time (default) but return after Delay/Gate: a stale list
+	Delay  time.Duration // latency before the snapshot is returned
+	Fail   string        // "", "error", "nil", "notlist", "nonobject", "ctxerr"
+	Gate   chan struct{} // if non-nil the call returns only after it is closed (or ctx is done)
+	Late   bool          // take the snapshot at call time (default) but return after Delay/Gate: a stale list
+	Repeat bool          // return the previous list's snapshot (content and version) again
 }
 
 // WatchAct scripts the n-th Watch call.
@@ -62,6 +63,9 @@ type FakeServer struct {
 	listTimes        []time.Time
 	inFlight         int
 	nListRet         int
+	havePrev         bool
+	prevRV           int
+	prevSnap         []MObj
 	lastMut          time.Time
 	lastHealthyFloor time.Time
 	healthyAt        time.Time // when the last Watch call with a fully healthy script connected
@@ -214,6 +218,12 @@ func (s *FakeServer) List(ctx context.Context, opts metav1.ListOptions) (runtime
 	s.mu.Lock()
 	if !act.Late {
 		rv, snap = s.snapshot()
+	}
+	if act.Repeat && s.havePrev {
+		rv, snap = s.prevRV, s.prevSnap
+	}
+	if act.Fail == "" {
+		s.havePrev, s.prevRV, s.prevSnap = true, rv, snap
 	}
 	extra := s.extra
 	// logged while the snapshot is taken: the list content is fixed here
